@@ -12,8 +12,39 @@ from .core import Ctx, finish
 from .program import AnalysisError, Program
 
 
+def _guard_rules() -> None:
+    """Every rule entry point (rules.*.rule_* / check_*) called with a Ctx records an AnalysisError on that Ctx instead of aborting the whole
+    check: a rule that can no longer read the code must not hide a definite violation found by another rule (exit 1 wins over exit 2)."""
+    import functools
+    import pkgutil
+
+    from . import rules as rules_pkg
+
+    for mi in pkgutil.iter_modules(rules_pkg.__path__):
+        m = importlib.import_module(f"nucsverif.rules.{mi.name}")
+        for name in dir(m):
+            fn = getattr(m, name)
+            if callable(fn) and (name.startswith("rule_") or name.startswith("check_")) and getattr(fn, "__module__", None) == m.__name__ \
+                    and not getattr(fn, "_guarded", False):
+                def make(f):
+                    @functools.wraps(f)
+                    def wrapper(*a, **k):
+                        ctx = a[0] if a and isinstance(a[0], Ctx) else None
+                        try:
+                            return f(*a, **k)
+                        except AnalysisError as e:
+                            if ctx is None:
+                                raise
+                            ctx.analysis_errors.append(str(e))
+                            return None
+                    wrapper._guarded = True  # type: ignore[attr-defined]
+                    return wrapper
+                setattr(m, name, make(fn))
+
+
 def run_check(prop: str, tier: str, repo: str) -> int:
     try:
+        _guard_rules()
         mod = importlib.import_module(f"nucsverif.props.{prop.lower()}")
     except ModuleNotFoundError:
         print(f"ANALYSIS-ERROR property={prop}: no check registered")
